@@ -77,6 +77,8 @@ def arch_strategy(draw, L, allow_maxpool=True, allow_overlap_pool=True, n_target
         layers.append({"t": "linear", "in": h, "out": T})
     else:
         layers.append({"t": "linear", "in": feat, "out": T})
+    if draw(st.integers(0, 4)) == 0:
+        layers.append({"t": "act", "name": draw(st.sampled_from(acts))})      # the model's output itself comes from an activation
     return {"layers": layers, "T": T, "L": L}
 
 
